@@ -51,6 +51,16 @@ theorem project_mem {m : Pomdp} {prev : VList} {a o : Nat} {p : VEntry} (hne : p
     simp only [val, immR, fut, hpo', Bool.false_eq_true, if_false]
     rw [getD_map_range _ _ _ hs]; ring
 
+theorem project_ne_nil' (m : Pomdp) {prev : VList} (a o : Nat) (hne : prev ≠ []) : project m prev a o ≠ [] := by
+  unfold project
+  split
+  · have : 0 < prev.length := List.length_pos_iff.mpr hne
+    intro h
+    have h2 := congrArg List.length h
+    simp only [List.length_map, List.length_range, List.length_nil] at h2
+    omega
+  · simp
+
 /-! ## assembled entries are one-step plans -/
 
 /-- `e` is a cross-sum of one Projecter output per observation, links in observation order -/
